@@ -128,8 +128,12 @@ def one_side(impl, case, sc, pert):
             for st_ in sc["steps"]:
                 pth = st_.get("path", "").encode()
                 if st_["op"] == "pull":
-                    plan.recv_raw[pth] = [wire.sync_fail(b"no such file"), wire.sync_data(b"ab") + wire.sync_fail(b"io error \xff"), struct.pack("<II", wire.ID_OKAY, 0), struct.pack("<II", wire.ID_DENT, 0),
+                    plan.recv_raw[pth] = [wire.sync_fail([b"no such file", b"disk 100% full", b"%s%d%", b"{0} {} {x}"][rng.randrange(4)]), wire.sync_data(b"ab") + wire.sync_fail(b"io error \xff"), struct.pack("<II", wire.ID_OKAY, 0), struct.pack("<II", wire.ID_DENT, 0),
                                           b"STA2" + struct.pack("<I", 3) + b"xyz", b"\x00\x01\x02\x03" + struct.pack("<I", 0)][which2]
+                elif st_["op"] in ("list", "stat") and which2 < 2:
+                    # FAIL where DENT/DONE or STAT is expected, with a reason that looks like a format string
+                    rsn = [b"no such file", b"disk 100% full", b"%s%d%", b"{0} {} {x}"][rng.randrange(4)]
+                    (plan.list_raw if st_["op"] == "list" else plan.stat_raw)[pth] = wire.sync_fail(rsn)
                 elif st_["op"] == "list":
                     if which2 >= 4:
                         plan.list_raw[pth] = [b"DNT2" + struct.pack("<I", 0), b"junk" + struct.pack("<I", 2) + b"ab"][which2 - 4]
@@ -525,9 +529,12 @@ def run_case(case):
         sc["steps"] = [{"op": "push", "path": "/sp%d" % i, "size": rng.choice([10, 3000, 9000]), "seed": case["seed"] + str(i), "src": "bytesio", "mode": 0o100644, "mtime": 0, "cb": None} for i in range(rng.randint(1, 3))]
         sc["dims"]["noise"] = []
     else:
-        for st in sc["steps"]:
+        for k_, st in enumerate(sc["steps"]):
             if st["op"] == "push" and st.get("mtime") == 0:
                 st["mtime"] = 4
+            if st["op"] == "push" and st.get("src") == "bytesio" and not st.get("slow_ack") and int(st["seed"][:2], 16) % 5 == 0:
+                st["src_pos"] = ("mid", "eof")[int(st["seed"][2:4], 16) % 2]      # a BytesIO that is not at position 0
+                stats["pushes_from_a_used_stream"] = stats.get("pushes_from_a_used_stream", 0) + 1
     if pert == "reconnect":
         # one device object re-connected (with / without close()) to a device announcing another maxdata, transfers before and after
         sc["steps"] = [{"op": rng.choice(["push", "push", "pull"]), "path": "/rc%d" % i, "size": rng.choice([100, 9000, 70000, 140000]), "seed": case["seed"] + str(i), "src": "bytesio", "rec": "64k",
